@@ -6,6 +6,16 @@ props = [json.loads(l) for l in open(os.path.join(V, "properties.jsonl"))]
 
 MACHINE_NOTE = 'The reference machine (spec/Machine.tla + Values.tla) is a transcription of the intended semantics checked for totality (NotStuck) by TLC; where no language document exists the pinned behaviour is the definition. Numbers outside the modelled domain are not compared.'
 CHECKS = {
+ "C12": dict(
+    level="model_checking",
+    text="In Machine.tla a HashMap is a list of pairs whose keys are pairwise not == under the language's equality (NaN never equal, 0 == -0, tuples "
+         "structural, strings by content, classes and cached ranges by identity); hashability is Value::has_hash. All 361 ordered pairs of a 19-key "
+         "pool (1 / 2-1, 0 / -0, NaN, equal strings and tuples built separately, tuples holding 0 / -0, nil, true, a class, a range, unhashable "
+         "vectors and tuples - fresh and held in a variable) run under an 8-operation script; every sequence of 4 operations on one key; and seeded "
+         "longer sequences with literals, insert, remove, get, has_key, len, clear and keys / values / items compared as multisets. Executed by the "
+         "machine under TLC, replayed on both builds.",
+    note=MACHINE_NOTE + " Enumeration order of a HashMap is unspecified and compared as a multiset.",
+    technique="TLA+ reference machine (TLC) + scenario products replayed on the implementation", design="4 C12"),
  "C14": dict(
     level="model_checking",
     text="Machine.tla models the module table (absent / loading / loaded), runs a module body once as a call in the importing fiber with its own "
